@@ -31,27 +31,24 @@ class FaultInjected(Exception):
 
 
 def make_funcs(fault=None, log=None):
-    """User functions with a call log and optional fault injection.  fault = (site, occurrence):
-    the occurrence-th call whose 'site' tag equals site raises.  The site of a call is carried by
-    the function name (<func>f and <func>g are distinct sites) plus the call counter."""
+    """User functions with a call log and optional fault injection.  A fault point is (tag,
+    occurrence): the occurrence-th call of <func>f whose keyword argument k equals tag raises.
+    Tags identify call sites independently of the order in which a back end schedules calls."""
     counts = {}
-    out = {}
+    out = dict(FUNCS)
     state = {"raised": None}
 
-    def wrap(name, fn):
-        def w(*a, **k):
-            counts[name] = counts.get(name, 0) + 1
-            if log is not None:
-                log.append((name, counts[name]))
-            if fault is not None and fault[0] == name and fault[1] == counts[name]:
-                exc = FaultInjected("%s#%d" % (name, counts[name]))
-                state["raised"] = exc
-                raise exc
-            return fn(*a, **k)
-        return w
+    def f(x, k=0):
+        counts[k] = counts.get(k, 0) + 1
+        if log is not None:
+            log.append(("<func>f", k, counts[k]))
+        if fault is not None and tuple(fault) == (k, counts[k]):
+            exc = FaultInjected("<func>f k=%d #%d" % (k, counts[k]))
+            state["raised"] = exc
+            raise exc
+        return func_f(x, k)
 
-    for name, fn in FUNCS.items():
-        out[name] = wrap(name, fn)
+    out["<func>f"] = f
     return out, state
 
 
